@@ -37,6 +37,7 @@ func init() {
 			{ID: "C07.R16", Text: "one observe round hands out exactly one completion per (vBucket, copy): Done for an absent copy or a closed/stale round, otherwise one observe of that copy index under the recorded branch id (0..3 copies, exhaustive)", Run: observeRoundAccounting},
 			{ID: "C07.R17", Text: "the observe loop is ended ⇔ it runs: Stop and reconfigure stop the timer, send the close request and await the acknowledgement exactly under observeTimer≠nil; reconfigure dies on an unreadable cluster map; the first configuration is recorded under err==nil", Run: mitigationStopHandshake},
 			{ID: "C07.R18", Text: "the mitigation is switched off only for a bucket that really is ephemeral (same rule as C18.R7)", Run: bucketPredicates},
+			{ID: "C07.R19", Text: "a copy leaves the minimum only because the cluster map does not list it: the absent mark is written only by the record's setter, which is called only from the cluster-map lookup (no error path, no pruning of the active copy)", Run: absentMarkWriters},
 			{ID: "C07.R6", Text: "close releases without delivering: observer.Close sets closed; listener called ⇔ ¬closed", Run: c07r6},
 		},
 	})
